@@ -187,14 +187,22 @@ def _dpre(old, new, logic, ic=False):
 
 
 def _bd_inputs():
+    # levels with %ignore_case rules: rows differing only in case are the same row
+    for rows_o, rows_n in ((["A", "b"], ["a", "B"]), (["Ab", "c"], ["c", "aB"]), (["x"], ["X", "y"]), (["P", "q"], ["q"])):
+        old = odict((r, odict()) for r in rows_o)
+        new = odict((r, odict()) for r in rows_n)
+        for ic_all in (True, False):
+            dp = _dpre(old, new, _c.default_diff, ic=ic_all)
+            if not ic_all:
+                dp[rows_o[0]]["match"]["attrs"]["ignore_case"] = True
+            for mta in (False, True):
+                yield dict(old=old, new=new, diff_pre=dp, pops=[Op.AFFECTED], moved_to_affected=mta)
     for old in _trees(1):
         for new in _trees(1):
             for logic in (_c.default_diff, _c.ordered_diff):
                 for pops in ([Op.AFFECTED], [Op.AFFECTED, Op.MOVED]):
                     for mta in (False, True):
                         yield dict(old=old, new=new, diff_pre=_dpre(old, new, logic), pops=list(pops), moved_to_affected=mta)
-
-
 def _dd_inputs():
     for case in _bd_inputs():
         if case["moved_to_affected"]:
@@ -205,6 +213,14 @@ def _ic_inputs():
     for old in _trees(0):
         for new in _trees(0):
             yield dict(diff_pre=_dpre(old, new, _c.default_diff), cfg=old)
+    # levels with %ignore_case rules and mixed-case rows
+    for rows in (["A", "b"], ["Ab", "aB", "c"], ["x"], ["X", "x"]):
+        for ic_rows in ([], rows[:1], rows):
+            cfg = odict((r, odict()) for r in rows)
+            dp = _dpre(cfg, odict(), _c.default_diff)
+            for r in ic_rows:
+                dp[r]["match"]["attrs"]["ignore_case"] = True
+            yield dict(diff_pre=dp, cfg=cfg)
 
 
 def _nat(fn, pops_name):
@@ -219,19 +235,67 @@ M.contract(F, "call_diff_logic", params=dict(diff_pre=DiffPre, old=Tree, new=Tre
            note="assumed: groups rows by their %diff_logic and dispatches (function values stored in the rulebook): bounded only",
            properties=["C03", "C01"])
 
-M.contract(F, "_ignore_case", params=dict(diff_pre=DiffPre, cfg=Tree), ret=Tree,
-           requires=["no_ic(diff_pre, diff_pre)"], ensures=["result == cfg"],
-           loops={1: dict(match="diff_pre", inv=["not has_ignore_case", "no_ic(_rest1, diff_pre)"]),
-                  2: dict(match="cfg", inv=["False"])},
+TD = U.tuple("TD", [Tree, DiffPre])
+
+
+@M.spec
+def lcf(rest: Tree, cfg: Tree, ret: Tree, dp: DiffPre) -> TD:
+    """the level with the rows of %ignore_case rules lower-cased (values kept), and diff_pre extended so that every new row carries
+    the rule of the row it came from"""
+    if not rest:
+        return (ret, dp)
+    row = dhead(rest)[0]
+    new_row = row.lower() if dp[row]["match"]["attrs"]["ignore_case"] else row
+    return lcf(dtail(rest), cfg, dput(ret, new_row, cfg[row]), dput(dp, new_row, dp[row]))
+
+
+M.lemma("covered_after_put", vars=dict(t=Tree, dp=DiffPre, k=STR, v=DP), hyps=["covered(t, dp)"], goal="covered(t, dput(dp, k, v))",
+        induct="t", pattern="covered(t, dput(dp, k, v))", properties=["C03"])
+
+@M.spec
+def ic(cfg: Tree, dp: DiffPre) -> TD:
+    """_ignore_case as a function: (the level as compared, diff_pre as extended)"""
+    return (cfg, dp) if no_ic(dp, dp) else lcf(cfg, cfg, {}, dp)
+
+
+M.lemma("covered_lcf_keeps", vars=dict(rest=Tree, cfg=Tree, ret=Tree, dp=DiffPre, t=Tree), hyps=["covered(t, dp)", "covered(rest, dp)"],
+        goal="covered(t, lcf(rest, cfg, ret, dp)[1])", induct="rest", ih=[dict(ret="dput(ret, (dhead(rest)[0].lower() if dp[dhead(rest)[0]]['match']['attrs']['ignore_case'] else dhead(rest)[0]), cfg[dhead(rest)[0]])",
+                                                                       dp="dput(dp, (dhead(rest)[0].lower() if dp[dhead(rest)[0]]['match']['attrs']['ignore_case'] else dhead(rest)[0]), dp[dhead(rest)[0]])")],
+        use=["covered_after_put"], pattern="covered(t, lcf(rest, cfg, ret, dp)[1])", properties=["C03"])
+M.lemma("covered_put_both", vars=dict(t=Tree, dp=DiffPre, k=STR, v=Tree, w=DP), hyps=["covered(t, dp)"],
+        goal="covered(dput(t, k, v), dput(dp, k, w))", induct="t", use=["covered_after_put"], properties=["C03"])
+M.lemma("covered_lcf_result", vars=dict(rest=Tree, cfg=Tree, ret=Tree, dp=DiffPre), hyps=["covered(ret, dp)", "covered(rest, dp)"],
+        goal="covered(lcf(rest, cfg, ret, dp)[0], lcf(rest, cfg, ret, dp)[1])", induct="rest",
+        ih=[dict(ret="dput(ret, (dhead(rest)[0].lower() if dp[dhead(rest)[0]]['match']['attrs']['ignore_case'] else dhead(rest)[0]), cfg[dhead(rest)[0]])",
+                 dp="dput(dp, (dhead(rest)[0].lower() if dp[dhead(rest)[0]]['match']['attrs']['ignore_case'] else dhead(rest)[0]), dp[dhead(rest)[0]])")],
+        use=["covered_after_put", "covered_put_both"], pattern="lcf(rest, cfg, ret, dp)", properties=["C03"])
+M.lemma("ic_keeps_covered", vars=dict(cfg=Tree, dp=DiffPre, t=Tree), hyps=["covered(t, dp)", "covered(cfg, dp)"],
+        goal="covered(t, ic(cfg, dp)[1]) and covered(ic(cfg, dp)[0], ic(cfg, dp)[1])",
+        instances=[("covered_lcf_keeps", dict(rest="cfg", cfg="cfg", ret="{}", dp="dp", t="t")),
+                   ("covered_lcf_result", dict(rest="cfg", cfg="cfg", ret="{}", dp="dp"))], properties=["C03"])
+
+M.contract(F, "_ignore_case", params=dict(diff_pre=DiffPre, cfg=Tree), ret=Tree, modifies=["diff_pre"], locals=dict(ret=Tree),
+           requires=["covered(cfg, diff_pre)"],
+           ensures=["implies(no_ic(old(diff_pre), old(diff_pre)), result == cfg and diff_pre == old(diff_pre))",
+                    "implies(not no_ic(old(diff_pre), old(diff_pre)), result == lcf(cfg, cfg, {}, old(diff_pre))[0] and "
+                    "diff_pre == lcf(cfg, cfg, {}, old(diff_pre))[1])"],
+           loops={1: dict(match="diff_pre", inv=["(has_ignore_case or not no_ic(_rest1, diff_pre)) == (not no_ic(diff_pre, diff_pre))"]),
+                  2: dict(match="cfg", inv=["covered(_rest2, diff_pre)",
+                                            "lcf(_rest2, cfg, ret, diff_pre) == lcf(cfg, cfg, {}, old(diff_pre))"])},
+           use=["covered_after_put"],
            canaries=["len(result) == 0"], properties=["C03", "C01"], inputs=_ic_inputs,
-           note="restricted by precondition to levels without an %ignore_case rule (the lower-casing branch is bounded only)")
+           note="both branches: without an %ignore_case rule the level is returned as it is; with one, rows of such rules are lower-cased")
+
+_BD = ("[x[1] for x in isort(rem_items(ic(old, old(diff_pre))[0], ic(old, old(diff_pre))[0], ic(new, ic(old, old(diff_pre))[1])[0], "
+       "ic(new, ic(old, old(diff_pre))[1])[1], %(pops)s, 0) + new_items(ic(new, ic(old, old(diff_pre))[1])[0], "
+       "ic(new, ic(old, old(diff_pre))[1])[0], ic(old, old(diff_pre))[0], ic(new, ic(old, old(diff_pre))[1])[1], %(pops)s, 0, False, %(mta)s))]")
 
 M.contract(F, "base_diff", params=dict(old=Tree, new=Tree, diff_pre=DiffPre, pops=SeqOp, moved_to_affected=BOOL),
            defaults=dict(moved_to_affected=False), ret=Diff, locals=dict(diff_indexed=SeqIdx, old_indexes=IdxMap, block_in_disorder=BOOL),
-           index_map_type=IdxMap, comp_types={1: Diff},
-           requires=["no_ic(diff_pre, diff_pre)", "covered(old, diff_pre)", "covered(new, diff_pre)", "len(pops) > 0"],
-           ensures=["result == [x[1] for x in isort(rem_items(old, old, new, diff_pre, pops, 0) + "
-                    "new_items(new, new, old, diff_pre, pops, 0, False, moved_to_affected))]"],
+           index_map_type=IdxMap, comp_types={1: Diff}, modifies=["diff_pre"],
+           requires=["covered(old, diff_pre)", "covered(new, diff_pre)", "len(pops) > 0"],
+           ensures=["result == " + _BD % dict(pops="pops", mta="moved_to_affected"),
+                    "diff_pre == ic(new, ic(old, old(diff_pre))[1])[1]"],
            loops={1: dict(match="enumerate(old)",
                           inv=["covered(_rest1, diff_pre)",
                                "diff_indexed + rem_items(_rest1, old, new, diff_pre, pops, _i1) == rem_items(old, old, new, diff_pre, pops, 0)"]),
@@ -239,16 +303,20 @@ M.contract(F, "base_diff", params=dict(old=Tree, new=Tree, diff_pre=DiffPre, pop
                           inv=["covered(_rest2, diff_pre)",
                                "diff_indexed + new_items(_rest2, new, old, diff_pre, pops, _i2, block_in_disorder, moved_to_affected) == "
                                "rem_items(old, old, new, diff_pre, pops, 0) + new_items(new, new, old, diff_pre, pops, 0, False, moved_to_affected)"])},
-           use=["index_map_is_pos", "index_map_has"], inputs=_bd_inputs, native_fn=_nat(_c.base_diff, "pops"),
-           canaries=["len(result) == 0"], properties=["C03", "C01"])
+           use=["index_map_is_pos", "index_map_has", "covered_lcf_keeps", "covered_lcf_result"], inputs=_bd_inputs,
+           ghost_after={"_ignore_case#1": [("covered_lcf_result", dict(rest="old", cfg="old", ret="{}", dp="diff_pre")),
+                                           ("covered_lcf_keeps", dict(rest="old", cfg="old", ret="{}", dp="diff_pre", t="new"))],
+                        "_ignore_case#2": [("covered_lcf_result", dict(rest="new", cfg="new", ret="{}", dp="diff_pre")),
+                                           ("covered_lcf_keeps", dict(rest="new", cfg="new", ret="{}", dp="diff_pre", t="old"))]},
+           native_fn=_nat(_c.base_diff, "pops"),
+           canaries=["len(result) == 0"], properties=["C03", "C01"],
+           note="old and new are compared as _ignore_case returns them (rows of %ignore_case rules lower-cased; diff_pre extended)")
 
-M.contract(F, "default_diff", params=dict(old=Tree, new=Tree, diff_pre=DiffPre, _pops=SeqOp), ret=Diff,
-           requires=["no_ic(diff_pre, diff_pre)", "covered(old, diff_pre)", "covered(new, diff_pre)", "len(_pops) > 0"],
-           ensures=["result == [x[1] for x in isort(rem_items(old, old, new, diff_pre, _pops, 0) + "
-                    "new_items(new, new, old, diff_pre, _pops, 0, False, True))]"],
+M.contract(F, "default_diff", params=dict(old=Tree, new=Tree, diff_pre=DiffPre, _pops=SeqOp), ret=Diff, modifies=["diff_pre"],
+           requires=["covered(old, diff_pre)", "covered(new, diff_pre)", "len(_pops) > 0"],
+           ensures=["result == " + _BD % dict(pops="_pops", mta="True")],
            comp_types={"*": Diff}, canaries=["len(result) == 0"], properties=["C03", "C01"], inputs=_dd_inputs, native_fn=_nat(_c.default_diff, "_pops"))
-M.contract(F, "ordered_diff", params=dict(old=Tree, new=Tree, diff_pre=DiffPre, _pops=SeqOp), ret=Diff,
-           requires=["no_ic(diff_pre, diff_pre)", "covered(old, diff_pre)", "covered(new, diff_pre)", "len(_pops) > 0"],
-           ensures=["result == [x[1] for x in isort(rem_items(old, old, new, diff_pre, _pops, 0) + "
-                    "new_items(new, new, old, diff_pre, _pops, 0, False, False))]"],
+M.contract(F, "ordered_diff", params=dict(old=Tree, new=Tree, diff_pre=DiffPre, _pops=SeqOp), ret=Diff, modifies=["diff_pre"],
+           requires=["covered(old, diff_pre)", "covered(new, diff_pre)", "len(_pops) > 0"],
+           ensures=["result == " + _BD % dict(pops="_pops", mta="False")],
            comp_types={"*": Diff}, canaries=["len(result) == 0"], properties=["C03", "C01"], inputs=_dd_inputs, native_fn=_nat(_c.ordered_diff, "_pops"))
